@@ -1001,7 +1001,7 @@ def scenario_campaign(ch, tr, st):
             ev.rf_disp_only = ch.flip(1, 3, "rf_disp_only")
             ev.clock_jumps = ch.flip(1, 2, "clock_jumps")
             ev.solve_first = ev.jorder == sorted(ev.jorder) and ev.n > 1 and ch.flip(1, 3, "psd_solve_first")
-            ev.presolved = False
+            ev.nsolved = 0
             ev.solved = {}
             ev.fs_kind = ch.weighted([3, 1], "fs_kind")
             if ev.mod.rfmodes is not None and ev.mod.desc["rf_at"] and (ev.mod.desc["rf_at"][0] < mod.nrb + mod.nel or ev.mod is not mod):
@@ -1110,6 +1110,7 @@ def scenario_campaign(ch, tr, st):
             with fs.mounted(M), _Sut("cla.save(event results)"):
                 cla.save(f"{ev.name}.p", ev.res)
             ev.ckpt = list(ev.done)
+            ev.ckpt_nsolved = getattr(ev, "nsolved", 0)
             ops.append(f"checkpoint {ev.name} after {len(ev.done)} cases")
             tr.shape("checkpoint", ev.idx, len(ev.done))
             st.fault("checkpoint_saved")
@@ -1122,12 +1123,13 @@ def scenario_campaign(ch, tr, st):
                 with _Sut("DR_Event.prepare_results"):
                     ev.res = ev.DR.prepare_results("mission", ev.name)
                 ev.done = []
-                ev.presolved = False  # the temporary PSD store died with the results
+                ev.nsolved = 0  # the temporary PSD store died with the results
                 st.fault("crash_restart_from_scratch")
             else:
                 with fs.mounted(M), _Sut("cla.load(event results)"):
                     ev.res = cla.load(f"{ev.name}.p")
                 ev.done = list(ev.ckpt)
+                ev.nsolved = getattr(ev, "ckpt_nsolved", 0)  # what the saved store holds
                 st.fault("crash_restart_from_checkpoint")
                 if len(ev.done) < had:
                     st.fault("crash_lost_cases_redone")
@@ -1264,16 +1266,23 @@ def op_recover_psd(M, ch, tr, st, rng, mod, ev):
     k = len(ev.done)
     j = ev.jorder[k]
     case = f"{ev.name}c{k}"
-    if ev.solve_first:
-        # all systems of the event are solved before any case is recovered (the temporary
-        # per-case PSD store has to hold them all until its case is recovered)
-        if not ev.presolved:
-            for kk in range(k, ev.n):
-                _psd_solve(M, ch, tr, st, rng, ev, f"{ev.name}c{kk}")
-            ev.presolved = True
+    # solvepsd may run ahead of psd_data_recovery by any number of cases (the temporary
+    # per-case PSD store holds them until their case is recovered): textbook pairs, all
+    # systems solved first, or a mixed schedule such as S0 R0 S1 S2 R1 R2.  Only with j in
+    # increasing order, because the store is deleted when j == n-1 is recovered.
+    ev.nsolved = max(ev.nsolved, k)
+    target = k + 1
+    if ev.jorder == sorted(ev.jorder):
+        if ev.solve_first and ev.nsolved == 0:
+            target = ev.n
             st.fault("psd_all_solved_before_recovery")
-    else:
-        _psd_solve(M, ch, tr, st, rng, ev, case)
+        else:
+            target = min(ev.n, k + 1 + [0, 0, 1, 2, 99][ch.draw(5, "psd_solve_ahead")])
+    for kk in range(ev.nsolved, target):
+        _psd_solve(M, ch, tr, st, rng, ev, f"{ev.name}c{kk}")
+    if target > k + 1:
+        st.fault("psd_solved_ahead")
+    ev.nsolved = max(ev.nsolved, target)
     with _Sut("DR_Results.psd_data_recovery"), _quiet():
         ev.res.psd_data_recovery(case, ev.DR, ev.n, j, dosrs=True, peak_factor=ev.peak_factor, resp_time=ev.resp_time, verbose=ch.draw(4, "verbose") if ch.flip(1, 8, "verbose_on") else 0)
     P, f = ev.solved[case]
@@ -1920,5 +1929,5 @@ ASSUMPTIONS = [
 EXPECTED_FAULTS = [
     "psd_domain", "clock_jump_backwards", "clock_jump_forwards", "external_maxmin", "merge_rename", "mixed_abscissa", "model_varies_between_events", "zero_force_psd_row", "nan_cells", "ties", "ties_quantised", "one_column_ext", "label_mismatch", "j_out_of_order", "interleaved_events", "view_drfunc",
     "cache_reuse", "cache_reuse_repeat_uf", "stale_extreme_rebuild", "shared_DR_Event", "envelope_multi_event", "split_merge", "calc_ext",
-    "deep_run", "rf_redesignated_same_matrices", "integer_table", "inf_cells", "mixed_depth_tree", "merge_of_merged_results", "force_trimming", "psd_all_solved_before_recovery", "checkpoint_saved", "crash_restart_from_checkpoint", "crash_restart_from_scratch", "crash_lost_cases_redone", "summary_copy", "summary_copy_stripped",
+    "deep_run", "rf_redesignated_same_matrices", "integer_table", "inf_cells", "mixed_depth_tree", "merge_of_merged_results", "force_trimming", "psd_all_solved_before_recovery", "psd_solved_ahead", "checkpoint_saved", "crash_restart_from_checkpoint", "crash_restart_from_scratch", "crash_lost_cases_redone", "summary_copy", "summary_copy_stripped",
 ]
